@@ -2,6 +2,7 @@ package main
 
 import (
 	"go/ast"
+	"go/constant"
 	"go/token"
 	"go/types"
 	"strings"
@@ -163,7 +164,12 @@ func (r *Run) Classify(path *Path, i int) GuardClass {
 			break
 		}
 		if tv, ok := rfn.Info().Types[nc]; ok && tv.Value != nil {
-			break // a literal result: nothing more to learn
+			// a literal result of a helper that was looked into on this path: the guards inside the helper that
+			// led to this return carry the meaning; the caller's test of the literal adds nothing
+			if tv.Value.Kind() == constant.Bool {
+				return GuardClass{Subject: "result:" + rfn.origOrSelf().Name, Outcome: tern(ev.Val, "true", "false")}
+			}
+			break
 		}
 		// a compound result whose operands were split inside the helper: the operand guards carry the
 		// meaning; this test of the result adds nothing
